@@ -26,6 +26,42 @@ are first in line for this area's functions only (`MINE`) and handle what pytr_c
   * `copy.copy(e)` with `copy` the module imported at top level: `pyCopyC20b` (a value has no identity, so the copy is the
     value — except that `copy.copy` rebuilds an instance of a `dict` subclass through the subclass's `__setitem__`, which for
     a JSXTagAttrDict normalises the names again: a dict with a key that contains `_` is `unsupported`).
+
+The walk (`_walk_attrs_and_children(x, fn)`) and its visitor (the function defined inside `JSXTag.tagify`, which appends to
+the list `metadata_nodes` of the enclosing call) use function values and a mutable captured variable.  Both are made
+first-order explicitly, under syntactic conditions checked here (anything else is `Untranslatable`):
+
+  * **the visitor** (spec `JSXTag.tagify.<inner>`: the one function defined directly in the body of `tagify`, whatever its
+    name) is translated as a function of its captured variable followed by its own parameter; it returns the pair
+    `(result, captured list afterwards)`.  Conditions (`visitor_info`): plain positional parameters, no decorator, no nested
+    scope, no `global` / `nonlocal` / `del` / `yield` / `with` / `try` / `import` in either function; its only free
+    variable bound by `tagify` is a local that `tagify` binds exactly once, at the top level of its body and before the
+    `def`, to `[]`; inside the visitor that name occurs only as the receiver of `name.append(e)` statements (`e` does not
+    mention it): `name := pyListAppend name e`; `return e` becomes `return (e, name)`.
+  * **the walk**: its parameter `fn` is the visitor *state* (the captured list).  Closed world, checked on the module: the
+    name `_walk_attrs_and_children` occurs only as the callee of calls with two plain positional arguments whose second is
+    either the walk's own (never rebound) parameter `fn` (the recursive calls) or the name of the visitor inside `tagify` —
+    so `fn(e)` in the walk *is* the visitor applied to `e` with the current state.  `fn` may occur in the walk only as the
+    callee of `fn(e)` and as that second argument, and both kinds of call only as the whole right-hand side of an
+    assignment statement:
+        t = fn(e)                      ->  (r, fn) := visitor G fuel fn e;  t := r
+        t = _walk_attrs_and_children(e, fn)  ->  (r, fn) := walk G fuel e fn;  t := r
+    (`pyUnpack2` of the returned pair; the state is updated before the target is assigned, the order in which Python
+    performs the call and the store); `return e` becomes `return (e, fn)`.
+  * targets `t`: a local name, or `x.<field>[k]` with `x` a local that the enclosing `if` / `elif` tests with
+    `isinstance(x, C)` (and that the branch does not rebind): a functional update of `x` —
+    `x := setattr x field (setitem (getattr x field) k r)` — where `setitem` is decided by the class `FIELD_CLASS[(C, field)]`
+    of the field: a TagList (`UserList.__setitem__`: `pySetItemU`), or a JSXTagAttrDict (the translated
+    `JSXTagAttrDict.__setitem__`, followed by `pySameKeysC20b`: `unsupported` if that changed the keys of the dict — it is
+    being iterated over).  A `PVal` has no identity: that the object `x` names is the visitor's *copy* and not the caller's
+    object is not part of the translation (it is C20's purity correspondence).
+  * `enumerate(e)`: `pyEnumerate (← pyNotJsxC20b e)` (`unsupported` for a `jsx` string, which the base `pyIter` does not know);
+    iterating `enumerate(x.children)` / `x.attrs.items()` over a snapshot is what Python does here: the loop body assigns
+    only to the position / key just yielded.
+  * `x.tagify()` in the visitor: by the class of `x` at run time — `Tag` / `TagList`: the translated methods (pytr_c10.py);
+    `JSXTag`: `unsupported` (the visitor calls it only for other classes); any other instance: `pyTagifyObj` (the value its
+    `tagify()` returns is recorded in the instance).
+  * `copy.copy(x)` in the visitor: a `JSXTag` goes to the translated `JSXTag.__copy__`, everything else to `pyCopyObjC20b`.
 """
 from __future__ import annotations
 
@@ -38,7 +74,11 @@ CORE = "htmltools/_core.py"
 
 #: Lean names of this area's translations
 MINE = ("JSXTagAttrDict_setitemC20b", "JSXTagAttrDict_updateMapC20b", "JSXTagAttrDict_updateC20b", "JSXTagAttrDict_initC20b",
-        "JSXTag_initC20b", "JSXTag_extendC20b", "JSXTag_appendC20b", "JSXTag_copyC20b")
+        "JSXTag_initC20b", "JSXTag_extendC20b", "JSXTag_appendC20b", "JSXTag_copyC20b",
+        "JSXTag_tagify_visitorC20b", "walk_attrs_and_childrenC20b")
+VISITOR, WALK = "JSXTag_tagify_visitorC20b", "walk_attrs_and_childrenC20b"
+VISITOR_QUAL = "JSXTag.tagify.<inner>"
+WALK_PY = "_walk_attrs_and_children"
 
 _mods: dict = {}
 
@@ -182,6 +222,10 @@ def expr_hook(fn, e):
     T = _T
     if fn.spec.lean not in MINE:
         return None
+    if fn.spec.lean in (VISITOR, WALK):
+        r = _walk_expr_hook(fn, e)
+        if r is not None:
+            return r
     if not isinstance(e, ast.Call):
         return None
     f = e.func
@@ -258,6 +302,8 @@ def stmt_hook(fn, ind, s):
     T = _T
     if fn.spec.lean not in MINE:
         return False
+    if fn.spec.lean in (VISITOR, WALK) and _walk_stmt_hook(fn, ind, s):
+        return True
     import pytr_c14
     import pytr_c15b
     # cp = self.__class__.__new__(self.__class__): cp becomes a fresh object
@@ -334,6 +380,317 @@ def stmt_hook(fn, ind, s):
     return False
 
 
+# ================================================================== the walk and its visitor
+def _in_source_order(node: ast.AST):
+    return sorted((n for n in ast.walk(node) if hasattr(n, "lineno")), key=lambda n: (n.lineno, n.col_offset))
+
+
+def _params_of(f: ast.FunctionDef) -> list[str]:
+    a = f.args
+    return [x.arg for x in a.posonlyargs + a.args + a.kwonlyargs] + ([a.vararg.arg] if a.vararg else []) + ([a.kwarg.arg] if a.kwarg else [])
+
+
+def _tagify_node():
+    mod = _mod(FILE)
+    for n in mod.body:
+        if isinstance(n, ast.ClassDef) and n.name == "JSXTag":
+            for m in n.body:
+                if isinstance(m, ast.FunctionDef) and m.name == "tagify":
+                    return m, n
+    return None, None
+
+
+def visitor_info():
+    """(outer, inner, captured name) for the function defined inside `JSXTag.tagify`; raises Untranslatable unless the
+    first-order reading of the module docstring is what Python does"""
+    T = _T
+    outer, cls = _tagify_node()
+    if outer is None:
+        raise T.Untranslatable("JSXTag.tagify not found")
+    inner = [m for m in outer.body if isinstance(m, ast.FunctionDef)]
+    if len(inner) != 1 or any(isinstance(n, (ast.FunctionDef, ast.AsyncFunctionDef, ast.Lambda, ast.ClassDef)) and n is not inner[0]
+                              and n is not outer for n in ast.walk(outer)):
+        raise T.Untranslatable("JSXTag.tagify: not exactly one nested function, directly in its body")
+    g = inner[0]
+    why = f"nested function {g.name}: "
+    a = g.args
+    if g.decorator_list or a.posonlyargs or a.vararg or a.kwarg or a.kwonlyargs or a.defaults or a.kw_defaults or len(a.args) != 1:
+        raise T.Untranslatable(why + "decorated, or parameters other than one plain positional one")
+    for f in (outer, g):
+        for n in ast.walk(f):
+            if isinstance(n, (ast.Global, ast.Nonlocal, ast.Delete, ast.NamedExpr, ast.Yield, ast.YieldFrom, ast.Await, ast.With,
+                              ast.Try, ast.Import, ast.ImportFrom, ast.ListComp, ast.SetComp, ast.DictComp, ast.GeneratorExp)) \
+                    and (f is g or n not in ast.walk(g)):
+                if f is g or isinstance(n, (ast.Global, ast.Nonlocal, ast.Delete, ast.NamedExpr, ast.Yield, ast.YieldFrom, ast.Await)):
+                    raise T.Untranslatable(why + f"{type(n).__name__} in the function or the one around it")
+    outer_bound = set(_params_of(outer)) | set(T.Fn.assigned_names(outer)) | {g.name}
+    mine = set(_params_of(g)) | set(T.Fn.assigned_names(g))
+    caps: list[str] = []
+    for n in _in_source_order(g):
+        if isinstance(n, ast.Name) and n.id not in mine and n.id in outer_bound and n.id not in caps:
+            caps.append(n.id)
+    if len(caps) != 1:
+        raise T.Untranslatable(why + f"closes over {caps or 'nothing'}: exactly one captured variable is supported")
+    cap = caps[0]
+    # `cap` in tagify: bound exactly once, at the top level of the body, before the def, to `[]`
+    binds = [s for s in outer.body if isinstance(s, (ast.Assign, ast.AnnAssign))
+             and any(isinstance(t, ast.Name) and t.id == cap for t in (s.targets if isinstance(s, ast.Assign) else [s.target]))]
+    stores = [n for n in ast.walk(outer) if isinstance(n, ast.Name) and n.id == cap and isinstance(n.ctx, ast.Store)]
+    if (len(binds) != 1 or len(stores) != 1 or not isinstance(binds[0].value, ast.List) or binds[0].value.elts
+            or outer.body.index(binds[0]) > outer.body.index(g) or cap in _params_of(outer)):
+        raise T.Untranslatable(why + f"`{cap}` is not a local bound once, to [], before the def")
+    # `cap` inside the visitor: only the receiver of `cap.append(e)` statements
+    appends = set()
+    for n in ast.walk(g):
+        if (isinstance(n, ast.Expr) and isinstance(n.value, ast.Call) and isinstance(n.value.func, ast.Attribute)
+                and n.value.func.attr == "append" and isinstance(n.value.func.value, ast.Name) and n.value.func.value.id == cap
+                and len(n.value.args) == 1 and not n.value.keywords and not isinstance(n.value.args[0], ast.Starred)
+                and not any(isinstance(x, ast.Name) and x.id == cap for x in ast.walk(n.value.args[0]))):
+            appends.add(id(n.value.func.value))
+    for n in ast.walk(g):
+        if isinstance(n, ast.Name) and n.id == cap and id(n) not in appends:
+            raise T.Untranslatable(why + f"`{cap}` is used other than as the receiver of {cap}.append(e) statements")
+    # the visitor's name in tagify: exactly one use, as the second argument of a call of the walk that is the whole
+    # right-hand side of a top-level assignment to a local name; `cap` is not read before that statement
+    uses = [n for n in ast.walk(outer) if isinstance(n, ast.Name) and n.id == g.name and n not in ast.walk(g)]
+    call_stmt = None
+    for st in outer.body:
+        if (isinstance(st, ast.Assign) and len(st.targets) == 1 and isinstance(st.targets[0], ast.Name) and _is_walk_call(st.value)
+                and isinstance(st.value.args[1], ast.Name) and st.value.args[1].id == g.name):
+            call_stmt = st
+    if call_stmt is None or len(uses) != 1 or uses[0] is not call_stmt.value.args[1]:
+        raise T.Untranslatable(why + "its name is used other than once, as the visitor argument of the walk")
+    k = outer.body.index(call_stmt)
+    if k < outer.body.index(g):
+        raise T.Untranslatable(why + "used before its definition")
+    for st in outer.body[:k + 1]:
+        if st is binds[0] or st is g:
+            continue
+        if any(isinstance(n, ast.Name) and n.id == cap for n in ast.walk(st)):
+            raise T.Untranslatable(why + f"`{cap}` is read before / in the call of the walk")
+    if any(isinstance(n, ast.Name) and n.id in (cap, g.name) for n in ast.walk(call_stmt.value.args[0])):
+        raise T.Untranslatable(why + "the walked value mentions the visitor or its captured variable")
+    return outer, g, cap, call_stmt
+
+
+def _is_walk_call(e) -> bool:
+    return (isinstance(e, ast.Call) and isinstance(e.func, ast.Name) and e.func.id == WALK_PY and len(e.args) == 2
+            and not e.keywords and not any(isinstance(a, ast.Starred) for a in e.args))
+
+
+def walk_closed_world(walk_node: ast.FunctionDef) -> str:
+    """the name of the visitor parameter of the walk, after checking the closed-world conditions of the module docstring"""
+    T = _T
+    mod = _mod(FILE)
+    # (the same function in this plug-in's own parse of the module: node identities are compared below)
+    walk_node = next((n for n in mod.body if isinstance(n, ast.FunctionDef) and n.name == walk_node.name), None)
+    if walk_node is None or walk_node.name != WALK_PY:
+        raise T.Untranslatable("the walk is not a module-level function of that name")
+    a = walk_node.args
+    if a.posonlyargs or a.vararg or a.kwarg or a.kwonlyargs or a.defaults or len(a.args) != 2 or walk_node.decorator_list:
+        raise T.Untranslatable("the walk does not take exactly two plain positional parameters")
+    vp = a.args[1].arg
+    if vp in T.Fn.assigned_names(walk_node):
+        raise T.Untranslatable(f"the walk rebinds its visitor parameter {vp}")
+    if len([n for n in _bindings(mod, WALK_PY)]) != 1:
+        raise T.Untranslatable(f"{WALK_PY} is bound more than once in the module")
+    for n in ast.walk(walk_node):
+        if n is not walk_node and isinstance(n, (ast.FunctionDef, ast.AsyncFunctionDef, ast.Lambda, ast.ClassDef, ast.Global, ast.Nonlocal,
+                                                 ast.ListComp, ast.SetComp, ast.DictComp, ast.GeneratorExp, ast.Try, ast.With, ast.Delete)):
+            raise T.Untranslatable(f"the walk contains a {type(n).__name__}")
+    _, g, _, _ = visitor_info()
+    # every occurrence of the walk's name in the module is the callee of a call (e, fn) / (e, <visitor>)
+    ok_names = set()
+    for fdef, second in [(walk_node, vp), (_tagify_node()[0], g.name)]:
+        for n in ast.walk(fdef):
+            if _is_walk_call(n) and isinstance(n.args[1], ast.Name) and n.args[1].id == second:
+                ok_names.add(id(n.func))
+    for n in ast.walk(mod):
+        if isinstance(n, ast.Name) and n.id == WALK_PY and id(n) not in ok_names:
+            raise T.Untranslatable(f"{WALK_PY} is used other than in calls with the visitor of JSXTag.tagify / its own parameter")
+        if isinstance(n, ast.Attribute) and n.attr == WALK_PY:
+            raise T.Untranslatable(f"{WALK_PY} is reached through an attribute")
+    # in the walk: `vp` only as the callee of vp(e) or the second argument of a recursive call, each the whole right-hand side
+    # of an assignment statement
+    fine = set()
+    for n in ast.walk(walk_node):
+        if isinstance(n, ast.Assign) and len(n.targets) == 1 and isinstance(n.value, ast.Call):
+            c = n.value
+            if _is_walk_call(c) and isinstance(c.args[1], ast.Name) and c.args[1].id == vp \
+                    and not any(isinstance(x, ast.Name) and x.id == vp for x in ast.walk(c.args[0])):
+                fine.add(id(c.args[1]))
+            if (isinstance(c.func, ast.Name) and c.func.id == vp and len(c.args) == 1 and not c.keywords
+                    and not isinstance(c.args[0], ast.Starred)
+                    and not any(isinstance(x, ast.Name) and x.id == vp for x in ast.walk(c.args[0]))):
+                fine.add(id(c.func))
+    for n in ast.walk(walk_node):
+        if isinstance(n, ast.Name) and n.id == vp and id(n) not in fine:
+            raise T.Untranslatable(f"the walk uses its visitor parameter {vp} other than as `t = {vp}(e)` / `t = {WALK_PY}(e, {vp})`")
+    return vp
+
+
+def make_fn_classes():
+    T = _T
+
+    class StateFn(T.Fn):
+        """a translation that threads a state parameter (`state`) and returns the pair (result, state)"""
+        state: str | None = None
+
+        def assigned_names(self, fn_node):          # (the base calls it as a static method)
+            out = T.Fn.assigned_names(fn_node)
+            st = getattr(self, "state", None)
+            return out + ([st] if st and st not in out else [])
+
+    class VisitorFn(StateFn):
+        def __init__(self, spec, node, cls, known):
+            outer, g, cap, _ = visitor_info()
+            super().__init__(spec, g, None, known)
+            self.state = cap
+            self.params = [cap] + self.params
+            self.all_params = [cap] + self.all_params
+            for p in self.all_params + self.locals:
+                if T.lname(p) in ("G", "fuel"):
+                    raise T.Untranslatable(f"the name {p} is reserved by the translation")
+
+    class WalkFn(StateFn):
+        def __init__(self, spec, node, cls, known):
+            super().__init__(spec, node, cls, known)
+            self.state = walk_closed_world(node)
+
+    return VisitorFn, WalkFn
+
+
+def _guard_class(fn, target_stmt, name: str):
+    """the class `C` of the innermost enclosing `if isinstance(name, C)` whose *body* contains the statement, provided the
+    branch does not rebind `name`"""
+    def find(stmts, chain):
+        for st in stmts:
+            if st is target_stmt:
+                return chain
+            if isinstance(st, ast.If):
+                r = find(st.body, chain + [st])
+                if r is not None:
+                    return r
+                r = find(st.orelse, chain)
+                if r is not None:
+                    return r
+            elif isinstance(st, ast.For):
+                r = find(st.body, chain)
+                if r is not None:
+                    return r
+        return None
+    chain = find(fn.node.body, [])
+    for st in reversed(chain or []):
+        t = st.test
+        if (isinstance(t, ast.Call) and isinstance(t.func, ast.Name) and t.func.id == "isinstance" and len(t.args) == 2
+                and isinstance(t.args[0], ast.Name) and t.args[0].id == name and isinstance(t.args[1], ast.Name)):
+            if any(isinstance(n, ast.Name) and n.id == name and isinstance(n.ctx, ast.Store) for b in st.body for n in ast.walk(b)):
+                return None
+            return t.args[1].id
+    return None
+
+
+def _state_assign(fn, ind, s: ast.Assign, call_text: str):
+    """`t = <call returning (result, state)>`"""
+    T = _T
+    st = fn.name(fn.state)
+    pair = fn.fresh("pair")
+    fn.emit(ind, f"let {pair} ← pyUnpack2 {call_text}")
+    fn.emit(ind, f"{st} := {pair}.2")
+    t = s.targets[0]
+    if isinstance(t, ast.Name):
+        fn.emit(ind, f"{fn.name(t.id)} := {pair}.1")
+        return
+    if (isinstance(t, ast.Subscript) and not isinstance(t.slice, ast.Slice) and isinstance(t.value, ast.Attribute)
+            and isinstance(t.value.value, ast.Name) and t.value.value.id in fn.all_params + fn.locals
+            and isinstance(t.slice, ast.Name)):
+        x, fld = t.value.value.id, t.value.attr
+        cls = _guard_class(fn, s, x)
+        owner = T.FIELD_CLASS.get((cls, fld)) if cls else None
+        if owner is None:
+            raise T.Untranslatable(f"{x}.{fld}[…] = …: the class of {x}.{fld} is not known from an enclosing isinstance test")
+        xn, k = fn.name(x), fn.name(t.slice.id)
+        if owner == "TagList":
+            fn.emit(ind, f'{xn} := (← pySetAttr {xn} "{fld}" (← pySetItemU (← pyGetAttr {xn} "{fld}") {k} {pair}.1))')
+            return
+        if owner == "JSXTagAttrDict":
+            info = fn.known.get("JSXTagAttrDict_setitemC20b")
+            if info is None or not info.available:
+                raise T.Untranslatable("JSXTagAttrDict.__setitem__ is not translated")
+            old = fn.fresh("old")
+            fn.emit(ind, f'let {old} ← pyGetAttr {xn} "{fld}"')
+            fn.emit(ind, f'{xn} := (← pySetAttr {xn} "{fld}" (← pySameKeysC20b {old} (← JSXTagAttrDict_setitemC20b G {old} {k} {pair}.1)))')
+            return
+        raise T.Untranslatable(f"item assignment into a {owner}")
+    raise T.Untranslatable("target of a visitor / walk call other than a name or x.<field>[k]")
+
+
+def _walk_stmt_hook(fn, ind, s):
+    T = _T
+    st = fn.state
+    if isinstance(s, ast.FunctionDef):
+        raise T.Untranslatable("nested function")
+    if isinstance(s, ast.Return):
+        v = fn.V(s.value) if s.value is not None else "PVal.none"
+        fn.emit(ind, f"return (PVal.tuple [{v}, {fn.name(st)}])")
+        return True
+    if fn.spec.lean == VISITOR and isinstance(s, ast.Expr) and isinstance(s.value, ast.Call):
+        c = s.value
+        if (isinstance(c.func, ast.Attribute) and c.func.attr == "append" and isinstance(c.func.value, ast.Name)
+                and c.func.value.id == st):
+            fn.emit(ind, f"{fn.name(st)} := (← pyListAppend {fn.name(st)} {fn.V(c.args[0])})")
+            return True
+    if fn.spec.lean == WALK and isinstance(s, ast.Assign) and len(s.targets) == 1 and isinstance(s.value, ast.Call):
+        c = s.value
+        if isinstance(c.func, ast.Name) and c.func.id == st:
+            vis = fn.known.get(VISITOR)
+            if vis is None or not vis.available:
+                raise T.Untranslatable("the visitor of JSXTag.tagify is not translated")
+            _state_assign(fn, ind, s, f"(← {VISITOR} G fuel {fn.name(st)} {fn.V(c.args[0])})")
+            return True
+        if _is_walk_call(c):
+            _state_assign(fn, ind, s, f"(← {WALK} G fuel {fn.V(c.args[0])} {fn.name(st)})")
+            return True
+    return False
+
+
+def _walk_expr_hook(fn, e):
+    T = _T
+    if isinstance(e, ast.Name) and e.id == fn.state and fn.spec.lean == WALK:
+        raise T.Untranslatable("the visitor parameter in a position the translation does not cover")
+    if not isinstance(e, ast.Call):
+        return None
+    f = e.func
+    if isinstance(f, ast.Name) and f.id == "enumerate" and len(e.args) == 1 and not e.keywords and not _shadowed(fn, "enumerate") \
+            and not isinstance(e.args[0], ast.Starred):
+        return f"(← pyEnumerate (← pyNotJsxC20b {fn.V(e.args[0])}))"
+    if isinstance(f, ast.Name) and (f.id == WALK_PY or f.id == fn.state):
+        raise T.Untranslatable("call of the walk / the visitor other than as the right-hand side of an assignment")
+    if isinstance(f, ast.Attribute):
+        if f.attr == "tagify":
+            if e.args or e.keywords:
+                raise T.Untranslatable("tagify() with arguments")
+            recv = fn.V(f.value)
+            arms = []
+            for cls in ("Tag", "TagList"):
+                info = next((i for i in fn.known.values() if i.spec.qual == f"{cls}.tagify" and i.spec.file == CORE), None)
+                if info is None or not info.available:
+                    raise T.Untranslatable(f"method {cls}.tagify is not translated")
+                arms.append(f'| "{cls}" => (do pure {fn.call_known(info, [], [], recv=recv)})')
+            arms.append('| "JSXTag" => throw PyErr.unsupported')
+            return f"(← match pyClassOf {recv} with " + " ".join(arms) + f" | _ => pyTagifyObj {recv})"
+        if (isinstance(f.value, ast.Name) and f.value.id == "copy" and f.attr == "copy" and len(e.args) == 1 and not e.keywords
+                and not isinstance(e.args[0], ast.Starred)):
+            if not _is_module(fn, "copy"):
+                raise T.Untranslatable("`copy` is not the module copy here")
+            info = fn.known.get("JSXTag_copyC20b")
+            if info is None or not info.available:
+                raise T.Untranslatable("JSXTag.__copy__ is not translated")
+            x = fn.V(e.args[0])
+            return f'(← match pyClassOf {x} with | "JSXTag" => JSXTag_copyC20b G {x} | _ => pyCopyObjC20b {x})'
+    return None
+
+
 def register(T):
     global _T
     _T = T
@@ -347,12 +704,19 @@ def register(T):
         F(FILE, "JSXTag.extend", "JSXTag_extendC20b", returns_self=True, group="c20b_jsxtag_extend"),
         F(FILE, "JSXTag.append", "JSXTag_appendC20b", returns_self=True, group="c20b_jsxtag_append"),
         F(FILE, "JSXTag.__copy__", "JSXTag_copyC20b"),
+        F(FILE, VISITOR_QUAL, VISITOR, group="c20b_visitor"),
+        F(FILE, WALK_PY, WALK, group="c20b_walk"),
     ]
+    VisitorFn, WalkFn = make_fn_classes()
+    T.FN_CLASS[VISITOR] = VisitorFn
+    T.FN_CLASS[WALK] = WalkFn
     T.ARITY.update({"JSXTagAttrDict_setitemC20b": 3, "JSXTagAttrDict_updateMapC20b": 2, "JSXTagAttrDict_updateC20b": 3,
                     "JSXTagAttrDict_initC20b": 2, "JSXTag_initC20b": 5, "JSXTag_extendC20b": 2, "JSXTag_appendC20b": 2,
-                    "JSXTag_copyC20b": 1})
+                    "JSXTag_copyC20b": 1, VISITOR: 2, WALK: 2})
     # the children of a JSXTag are a TagList (`self.children = TagList(*args)` in `JSXTag.__init__`)
     T.FIELD_CLASS[("JSXTag", "children")] = "TagList"
+    # … and its attrs a JSXTagAttrDict (`self.attrs = JSXTagAttrDict(**kwargs)`)
+    T.FIELD_CLASS[("JSXTag", "attrs")] = "JSXTagAttrDict"
     for m in ("HtmlVerif.Py.PrimC10", "HtmlVerif.Py.PrimC15b", "HtmlVerif.Py.PrimC20", "HtmlVerif.Py.PrimC20b"):
         if m not in T.IMPORTS:
             T.IMPORTS.append(m)
